@@ -127,11 +127,13 @@ def gen_case(rng, min_remaps=2, micro=0.0, defaults=False, big=False):
     return case
 
 
-def make(case):
+def make(case, ranges_obj=None):
     from ribs.archives import SlidingBoundariesArchive
     ranges = [(float(fr(a)), float(fr(b))) for a, b in zip(case["lo"], case["hi"])]
     rform = case.get("forms", {}).get("ranges")
     ranges = np.array(ranges) if rform == "nd" else ([list(r) for r in ranges] if rform == "lists" else ranges)
+    if ranges_obj is not None:
+        ranges = ranges_obj         # the caller's own container, shared with a sibling archive (see Run.poke_sibling)
     kw = dict(remap_frequency=case["freq"], buffer_capacity=case["cap"], qd_score_offset=float(fr(case["off"])),
               dtype=archlib.dtype_arg(case), extra_fields=archlib.extra_fields(case["layout"]))
     # options at their documented default are omitted, so that the default itself is what runs (the oracle reads the case)
@@ -169,7 +171,17 @@ class Run:
 
     def __init__(self, case, props):
         self.case, self.props = case, set(props)
-        self.a = make(case)
+        # `ranges` as the caller's own container (an ndarray of the measures dtype, or nested lists), used for a
+        # second archive as well (archive + result archive built from one configuration): the sibling remaps on its
+        # own data between the calls of the archive under test, and at the end the caller re-uses the container
+        self.sibling, self.ranges_obj = None, None
+        if case.get("forms", {}).get("ranges") in ("nd", "lists") and case.get("case_index", 0) % 2 == 1:
+            rl = [[float(fr(x)), float(fr(y))] for x, y in zip(case["lo"], case["hi"])]
+            self.ranges_obj = (np.array(rl, dtype=NP[archlib.meas_dtype(case)]) if case["forms"]["ranges"] == "nd" else rl)
+            self.a = make(case, self.ranges_obj)
+            self.sibling = make(case, self.ranges_obj)
+        else:
+            self.a = make(case)
         self.dt = case["dtype"]
         self.drv = Driver("sliding")
         g = geom(self.a, case)
@@ -184,6 +196,24 @@ class Run:
         self.remaps = 0
         self.after_bad = None
         self.stat = {}
+
+    def poke_sibling(self, k):
+        """the sibling archive lives its own life (insertions far from the data of the archive under test, through at
+        least one remap); afterwards the caller scribbles over the shared `ranges` container"""
+        case = self.case
+        nd, sd = len(case["dims"]), case["sol_dim"]
+        span = [float(fr(y)) - float(fr(x)) for x, y in zip(case["lo"], case["hi"])]
+        for j in range(case["freq"] + 1):
+            m = [float(fr(case["lo"][d])) - (3 + j + k) * span[d] for d in range(nd)]
+            toks = [9 * 10**6 + 100 * k + j]
+            self.sibling.add_single(np.array(solution_of(toks[0], sd), dtype=NP[self.dt]).reshape(sd), float(j), m,
+                                    **{n: v[0] for n, v in batch_kwargs(case["layout"], toks).items()})
+        self.stat["sibling-pokes"] = self.stat.get("sibling-pokes", 0) + 1
+        if isinstance(self.ranges_obj, np.ndarray):
+            self.ranges_obj[...] = -12345.0
+        else:
+            for row in self.ranges_obj:
+                row[0], row[1] = -12345.0, -12344.0
 
     def F_(self, prop, kind, what):
         if "C11" in self.props:
@@ -464,6 +494,8 @@ class Run:
             for k, op in enumerate(case["ops"]):
                 where = f"op#{k} {op['op']}"
                 f = None
+                if self.sibling is not None and k % 3 == 1:
+                    self.poke_sibling(k)
                 if op["op"] == "add1":
                     f = self.insert(op["row"], where)
                 elif op["op"] == "add":
